@@ -8,6 +8,7 @@ import (
 	"io"
 	"math/rand/v2"
 	"net/http"
+	"strconv"
 	"strings"
 	"testing"
 	"testing/synctest"
@@ -37,7 +38,12 @@ type agScript struct {
 	Gap         int64         `json:"gap_between_calls,omitempty"`
 	Body        string        `json:"body"` // "nil" | "nobody" | "bytes" | "noget" | "closeonce"
 	Calls       [][]agAttempt `json:"calls"`
+	// PanicAt > 0: the callback panics (once) when it is given the event with data "e<PanicAt>"; the
+	// application recovers and goes on to the next Connect call
+	PanicAt int `json:"callback_panics_at_event,omitempty"`
 }
+
+var errAgainPanic = errors.New("Connect left by a panic of the callback")
 
 // closeOnceBody is a request body whose second Close fails (like *os.File).
 type closeOnceBody struct {
@@ -169,15 +175,31 @@ func runAgain(t *testing.T, sc *agScript) (obs *agObs) {
 		nretry := 0
 		cl.OnRetry = func(error, time.Duration) { nretry++ }
 		conn := cl.NewConnection(req)
+		panicked := false
 		conn.SubscribeToAll(func(e sse.Event) {
 			obs.Events = append(obs.Events, obsEvent{strings.Clone(e.LastEventID), strings.Clone(e.Type), strings.Clone(e.Data)})
+			if sc.PanicAt > 0 && !panicked && e.Data == "e"+strconv.Itoa(sc.PanicAt) {
+				panicked = true
+				panic("callback panics")
+			}
 		})
 		if sc.DelayBefore > 0 {
 			time.Sleep(time.Duration(sc.DelayBefore))
 		}
 		for call = 0; call < len(sc.Calls); call++ {
 			inCall, nretry = 0, 0
-			ret := conn.Connect()
+			var ret error
+			func() {
+				defer func() {
+					if p := recover(); p != nil {
+						if p != "callback panics" {
+							panic(p)
+						}
+						ret = errAgainPanic
+					}
+				}()
+				ret = conn.Connect()
+			}()
 			obs.Rets = append(obs.Rets, ret)
 			obs.Retries = append(obs.Retries, nretry)
 			if obs.Runaway {
@@ -203,6 +225,7 @@ func judgeAgain(sc *agScript, obs *agObs) (out []jv) {
 	ri := 0 // next request expected
 	var wantEvents []obsEvent
 	bodyHas := sc.Body == "bytes" || sc.Body == "noget" || sc.Body == "closeonce" || strings.HasPrefix(sc.Body, "getfail_once:")
+	panicSeen := false
 	failJ, getCalls := 0, 0
 	fmt.Sscanf(sc.Body, "getfail_once:%d", &failJ)
 	for ci := range sc.Calls {
@@ -213,7 +236,7 @@ func judgeAgain(sc *agScript, obs *agObs) (out []jv) {
 		count, ai := 0, 0
 		var lastKind string
 		var lastReq int
-		noGet, getFailed := false, false
+		noGet, getFailed, callPanicked := false, false, false
 		for {
 			if ri > 0 && sc.Body == "noget" {
 				noGet = true
@@ -250,6 +273,22 @@ func judgeAgain(sc *agScript, obs *agObs) (out []jv) {
 			lastReq = ri
 			if a.Kind == "stream" {
 				so := interpretAttempt(cAttempt{Kind: "stream", Stream: a.Stream, End: "eof", CancelAtOff: -1}, lastID)
+				if sc.PanicAt > 0 && !panicSeen {
+					for j, e := range so.Events {
+						if e.Data == "e"+strconv.Itoa(sc.PanicAt) {
+							// the callback panics on this event: it was dispatched (its ID counts), nothing after it is
+							panicSeen, callPanicked = true, true
+							wantEvents = append(wantEvents, so.Events[:j+1]...)
+							lastID = e.ID
+							break
+						}
+					}
+					if callPanicked {
+						ri++
+						ai++
+						break
+					}
+				}
 				wantEvents = append(wantEvents, so.Events...)
 				lastID = so.LastID
 				if strings.Contains(lastID, "\x00") {
@@ -277,10 +316,15 @@ func judgeAgain(sc *agScript, obs *agObs) (out []jv) {
 		}
 		var ce *sse.ConnectionError
 		switch {
+		case callPanicked && ret == errAgainPanic:
 		case ret == nil:
 			out = append(out, jvf([]string{"ret"}, "Connect call %d returned nil", ci+1))
 		case !errors.As(ret, &ce):
 			out = append(out, jvf([]string{"ret"}, "Connect call %d returned %v (%T), not a *ConnectionError", ci+1, ret, ret))
+		case callPanicked:
+			if ret != errAgainPanic {
+				out = append(out, jvf([]string{"ret"}, "Connect call %d: the callback panicked but Connect returned %v", ci+1, ret))
+			}
 		case getFailed:
 			if !errors.Is(ret, errGetBody) {
 				out = append(out, jvf([]string{"nogetbody"}, "Connect call %d: GetBody failed but Connect returned %v", ci+1, ret))
@@ -302,7 +346,7 @@ func judgeAgain(sc *agScript, obs *agObs) (out []jv) {
 				out = append(out, jvf([]string{"ret"}, "Connect call %d returned %v, want io.EOF (the last stream ended cleanly)", ci+1, ret))
 			}
 		}
-		if !noGet && !getFailed && ci < len(obs.Retries) && obs.Retries[ci] != ai-1 {
+		if !noGet && !getFailed && !callPanicked && ci < len(obs.Retries) && obs.Retries[ci] != ai-1 {
 			out = append(out, jvf([]string{"onretry"}, "Connect call %d: OnRetry called %d times for %d attempts", ci+1, obs.Retries[ci], ai))
 		}
 	}
@@ -369,6 +413,9 @@ func againPhase(t *testing.T, r *fw.Run, prop string, n int, keep map[string]boo
 				}
 			}
 			sc.Calls = append(sc.Calls, call)
+		}
+		if ev > 0 && rng.IntN(4) == 0 {
+			sc.PanicAt = 1 + rng.IntN(ev)
 		}
 		r.Begin(key, fmt.Sprintf("%+v", *sc))
 		obs := runAgain(t, sc)
